@@ -210,6 +210,46 @@ func (g *vgen) buildPool() {
 	}
 }
 
+var vExtremal bool
+
+type vextremal struct {
+	op   string
+	k    uint
+	a, b []uint64
+}
+
+func vreadExtremal(path string) []vextremal {
+	f, err := os.Open(path)
+	if err != nil {
+		panic(err)
+	}
+	defer f.Close()
+	var out []vextremal
+	sc := bufio.NewScanner(f)
+	sc.Buffer(make([]byte, 1<<20), 1<<20)
+	limbs := func(v [][]int) []uint64 {
+		o := make([]uint64, len(v))
+		for i, bs := range v {
+			for j, b := range bs {
+				o[i] |= uint64(b) << (8 * uint(j))
+			}
+		}
+		return o
+	}
+	for sc.Scan() {
+		var e struct {
+			Op   string  `json:"op"`
+			K    uint    `json:"k"`
+			A, B [][]int
+		}
+		if json.Unmarshal(sc.Bytes(), &e) != nil {
+			continue
+		}
+		out = append(out, vextremal{e.Op, e.K, limbs(e.A), limbs(e.B)})
+	}
+	return out
+}
+
 // floor(k * 2^64 / d) for small k, d
 func vdivPow64(k, d uint64) uint64 {
 	// long division of (k << 64) by d
@@ -263,8 +303,9 @@ func TestVerifRecC04(t *testing.T) {
 		switch op {
 		case "add":
 			// Add does not reduce: its admissible inputs are those whose sum stays in the headroom
+			// (extremal replay: the pair comes from a bound-transfer instance the word-level specification admitted)
 			for i := range a {
-				if a[i]+b[i] > g.max[i] {
+				if a[i]+b[i] > g.max[i] && !vExtremal {
 					return
 				}
 			}
@@ -364,6 +405,33 @@ func TestVerifRecC04(t *testing.T) {
 		w.emit(e)
 	}
 
+	// ---- extremal replay (C04 word level): the bound vectors of the transfer instances recorded from the shadow
+	// execution, used as concrete limbs - the largest intermediates of every operation on every reachable class
+	if path := os.Getenv("VERIF_EXTREMAL"); path != "" {
+		vExtremal = true
+		for _, x := range vreadExtremal(path) {
+			switch x.op {
+			case "mul":
+				bin("mul", x.a, x.b)
+				bin("mulgeneric", x.a, x.b)
+			case "add":
+				bin(x.op, x.a, x.b)
+			case "sub":
+				// the extremes of (a + k*p) - b: largest sum, and smallest minuend against the largest subtrahend
+				zero := make([]uint64, len(x.a))
+				bin("sub", x.a, x.b)
+				bin("sub", x.a, zero)
+				bin("sub", zero, x.b)
+			case "square", "square2", "mul121666", "neg", "tobytes":
+				un(x.op, x.a, 0)
+			case "pow2k":
+				un("pow2k", x.a, x.k)
+				un("pow2kgeneric", x.a, x.k)
+			}
+		}
+		fmt.Printf("recorded %d events\n", w.seq)
+		return
+	}
 	// ---- exhaustive part: structured pool
 	pool := g.pool
 	for _, a := range pool {
